@@ -20,8 +20,8 @@ RULE = ("model (Leg M) = ALL histories <= MaxLen over grow-stack / grow-heap / b
         "distinct = distinct replayed transitions + distinct trace-event classes (event kind, outcome, position of the range "
         "relative to stack extent / hp / 64 MiB, length class, overlap relation, reuse state)")
 
-PROPERTIES_WIP = ['C23']
-MANIFEST_WIP = {
+PROPERTIES = ['C23']
+MANIFEST = {
     'C23': dict(category='model_checking',
                 technique='TLA+ spec Memory (flat zero-initialised array + stack extent + heap pointer, written from the property '
                           'text) model-checked by TLC; every transition of the 64 MiB model replayed into the real MemoryInstance; '
@@ -42,7 +42,6 @@ MANIFEST_WIP = {
                 design_ref='4/C23'),
 }
 
-MALLOC_ENV = {}
 
 
 def _cmp(a, b):
